@@ -72,6 +72,8 @@ pub enum Stmt {
     Mark(String, Vec<Expr>),
     Raise(String),
     Assign(String, Expr),
+    /// `<assign location="arr[k]" expr=…>`: assignment to an element of a declared array (k inside the array)
+    AssignElem(String, usize, Expr),
     If(Vec<(Cond, Block)>, Option<Block>),
     /// array variable or literal
     Foreach {
@@ -294,6 +296,13 @@ fn render_block(b: &Block, dm: Dm, out: &mut String, ind: usize) {
                 "{}<assign location=\"{}\" expr=\"{}\"/>\n",
                 pad,
                 v,
+                xml_escape(&render_expr(e))
+            )),
+            Stmt::AssignElem(a, k, e) => out.push_str(&format!(
+                "{}<assign location=\"{}[{}]\" expr=\"{}\"/>\n",
+                pad,
+                a,
+                k,
                 xml_escape(&render_expr(e))
             )),
             Stmt::AssignUndeclared => {
@@ -539,6 +548,9 @@ struct Gen<'a> {
     next_id: usize,
     mark_seq: usize,
     budget: usize,
+    /// nesting depth of <foreach> bodies being generated (elements are not assigned while an array is iterated:
+    /// the property does not say what an iteration sees of that)
+    foreach_depth: usize,
 }
 
 impl<'a> Gen<'a> {
@@ -648,6 +660,7 @@ pub fn generate(rng: &mut Rng, o: &GenOpts, name: &str) -> Doc {
         next_id: 0,
         mark_seq: 0,
         budget: 0,
+        foreach_depth: 0,
     };
     g.budget = 2 + g.rng.below(o.max_states - 1);
     // top level: 1..3 states plus maybe a top-level final
@@ -953,7 +966,9 @@ fn gen_stmt(g: &mut Gen, in_names: &[String], depth: usize) -> Option<Stmt> {
                     None => vec![Expr::Var(item.clone())],
                 },
             )];
+            g.foreach_depth += 1;
             gen_block_tail(&mut body, g, in_names, depth - 1);
+            g.foreach_depth -= 1;
             Stmt::Foreach { array, item, index, body }
         }
         7 if o.w_self_send > 0 => {
@@ -984,6 +999,14 @@ fn gen_stmt(g: &mut Gen, in_names: &[String], depth: usize) -> Option<Stmt> {
             6 => Stmt::SendBad(BadSend::Namelist),
             _ => Stmt::SendBad(BadSend::DelayExpr),
         },
+        12 if o.w_foreach > 0 && o.dm != Dm::Null && g.foreach_depth == 0 => {
+            let k = g.rng.below(3);
+            if g.rng.chance(1, 2) {
+                Stmt::AssignElem("arr0".to_string(), k, Expr::Add(format!("v{}", g.rng.below(3)), g.rng.range(40, 49)))
+            } else {
+                Stmt::AssignElem("arr0".to_string(), k, Expr::Const(g.rng.range(50, 59)))
+            }
+        }
         _ => return None,
     })
 }
